@@ -250,3 +250,77 @@ pub fn debug_chain(e: &Dyn) -> String
 	}
 	s
 }
+
+// ---------------------------------------------------------------------------------------------------------
+// canonical TEXT of an instruction diagnostic for the front-end correspondence (C04 / C19): the strings the Lean driver
+// `Driver/Front.lean: diagText` prints. They are rendered HERE from the structure of the error value (variant + fields), so
+// the crate's own `Display` wording is not involved; everything outside the instruction errors falls back to `diag_kind`.
+
+fn ty_words(t: ArgumentType) -> String {ty_name(t).replace('_', " ")}
+
+pub fn encode_text(e: &EncodeError) -> String
+{
+	match e {EncodeError::Unrepresentable => "unrepresentable".to_owned(), EncodeError::Overflow{need, have} => format!("overflow {need} {have}")}
+}
+
+fn front_inner(e: &Dyn) -> String
+{
+	let e = peel(e);
+	if let Some(v) = e.downcast_ref::<AsmError>()
+	{
+		return match v
+		{
+			AsmError::ValueRange{instr, idx} => format!("argument #{} for {instr} is out of range", idx + 1),
+			AsmError::NoSuchRegister{instr, idx, what} => format!("argument #{} for {instr} has invalid register {what:?}", idx + 1),
+			AsmError::Encode(x) => format!("could not encode instruction <- {}", encode_text(x)),
+			AsmError::Write(SegmentError::Overflow{need, have}) => format!("could not write instruction to segment <- segment overflow (need {need}, capacity {have})"),
+			AsmError::Write(s) => format!("could not write instruction to segment <- {}", seg_kind(s)),
+		};
+	}
+	if let Some(c) = e.downcast_ref::<ConstantError>()
+	{
+		return match c
+		{
+			ConstantError::Range{min, max, have} => format!("label out of range ({min} to {max}, got {have})"),
+			ConstantError::Alignment{align, have} => format!("misaligned label (expect {align}, got {have})"),
+			ConstantError::NotFound{name, realm} => format!("no such {} constant {name:?}", realm_name(*realm)),
+			other => inner_kind(other),
+		};
+	}
+	if let Some(v) = e.downcast_ref::<EvalError>()
+	{
+		return match v
+		{
+			EvalError::NoSuchVariable{name, realm} => format!("no such {} constant {:?}", realm_name(*realm), name.as_ref()),
+			EvalError::BadType{kind, op} => format!("{} not supported for {}", ty_words(*op), ty_words(*kind)),
+			EvalError::Overflow(o) => format!("arithmetic overflow <- {o:?}"),
+		};
+	}
+	inner_kind(e)
+}
+
+pub fn front_text(e: &Dyn) -> String
+{
+	let e = peel(e);
+	if let Some(i) = e.downcast_ref::<InstrErrorKind>()
+	{
+		return match i
+		{
+			InstrErrorKind::NotFound(name) => format!("no such instruction {name:?}"),
+			InstrErrorKind::TooManyArguments{instr, max, have} => format!("too many arguments for {instr} (max {max}, have {have})"),
+			InstrErrorKind::NotEnoughArguments{instr, need, have} => format!("not enough arguments for {instr} (need {need}, have {have})"),
+			InstrErrorKind::ArgumentType{instr, idx, expect, have} =>
+			{
+				let names: Vec<String> = expect.iter().map(ty_words).collect();
+				match names.len()
+				{
+					0 => format!("invalid argument #{} for {instr} (got {})", idx + 1, ty_words(*have)),
+					1 => format!("invalid argument #{} for {instr} (expect {}, got {})", idx + 1, names[0], ty_words(*have)),
+					_ => format!("invalid argument #{} for {instr} (expect one of {{{}}}; got {})", idx + 1, names.join(", "), ty_words(*have)),
+				}
+			},
+			InstrErrorKind::Assemble(source) => format!("instruction assembly failed <- {}", front_inner(source.as_ref())),
+		};
+	}
+	diag_kind(e)
+}
